@@ -64,11 +64,13 @@ func createQueueManagerWithMemFd(queuePathName string, queueCap uint32) (*queueM
 
 	memSize := countQueueMemSize(queueCap) * queueCount
 	if err := syscall.Ftruncate(memFd, int64(memSize)); err != nil {
+		_ = syscall.Close(memFd)
 		return nil, fmt.Errorf("createQueueManagerWithMemFd truncate share memory failed,%w", err)
 	}
 
 	mem, err := syscall.Mmap(memFd, 0, memSize, syscall.PROT_READ|syscall.PROT_WRITE, syscall.MAP_SHARED)
 	if err != nil {
+		_ = syscall.Close(memFd)
 		return nil, err
 	}
 	for i := 0; i < len(mem); i++ {
